@@ -541,6 +541,19 @@ def _labels(X, spacing):
     return verde.block_split((X[:, 0], X[:, 1]), spacing=spacing)[1]
 
 
+def _reused_on_other_rows(make_cv, X):
+    """A splitter that has already split X, then splits the SAME points in another row order (same size, same bounding
+    box): the same test sets as a fresh splitter gives for that array."""
+    with warnings.catch_warnings():
+        warnings.simplefilter("ignore")
+        cv = make_cv()
+        list(cv.split(X))
+        X2 = np.ascontiguousarray(X[::-1])
+        got = [np.array(te) for _, te in cv.split(X2)]
+        want = [np.array(te) for _, te in make_cv().split(X2)]
+    return len(got) == len(want) and all(np.array_equal(x, y) for x, y in zip(got, want))
+
+
 def _same_object_split_twice(cv, X):
     """Two split() calls of ONE splitter object (an integer seed, or no shuffling): the same folds both times."""
     with warnings.catch_warnings():
@@ -628,7 +641,9 @@ class KFoldSplits(Contract):
         if isinstance(a.random_state, int) or not a.shuffle:
             import verde
 
-            out["a_second_split_of_the_same_splitter_gives_the_same_folds"] = _same_object_split_twice(verde.BlockKFold(spacing=a.spacing, n_splits=a.n_splits, shuffle=a.shuffle, random_state=a.random_state, balance=a.balance), X)
+            mk = lambda: verde.BlockKFold(spacing=a.spacing, n_splits=a.n_splits, shuffle=a.shuffle, random_state=a.random_state, balance=a.balance)  # noqa: E731
+            out["a_second_split_of_the_same_splitter_gives_the_same_folds"] = _same_object_split_twice(mk(), X)
+            out["a_splitter_reused_on_the_same_points_in_another_row_order_acts_like_a_fresh_one"] = _reused_on_other_rows(mk, X)
         return out
 
 
@@ -693,5 +708,7 @@ class ShuffleSplits(Contract):
         if isinstance(a.random_state, int):
             import verde
 
-            out["a_second_split_of_the_same_splitter_gives_the_same_splits"] = _same_object_split_twice(verde.BlockShuffleSplit(spacing=a.spacing, n_splits=a.n_splits, test_size=a.test_size, random_state=a.random_state, balancing=a.balancing), X)
+            mk = lambda: verde.BlockShuffleSplit(spacing=a.spacing, n_splits=a.n_splits, test_size=a.test_size, random_state=a.random_state, balancing=a.balancing)  # noqa: E731
+            out["a_second_split_of_the_same_splitter_gives_the_same_splits"] = _same_object_split_twice(mk(), X)
+            out["a_splitter_reused_on_the_same_points_in_another_row_order_acts_like_a_fresh_one"] = _reused_on_other_rows(mk, X)
         return out
